@@ -4,4 +4,6 @@ pub mod report;
 pub mod run;
 pub mod util;
 
+pub mod regress;
+
 pub mod c17;
